@@ -11,6 +11,7 @@ from ..alpha import alpha, build_checked, model_of, spec, wellformed
 from ..model import V, lead, mono_key, name_index, exact_scalar, ONE
 from .. import space
 from . import C09
+from ..snap import recall
 
 ID = "C19"
 CASE_BUDGET_S = 900
@@ -129,6 +130,8 @@ def run_case(case, R):
                     if via == "args":
                         R.tr()
                         try:
+                            first = numpoly.lead_exponent(p, graded=graded, reverse=reverse)
+                            recall(R, "lead_exponent", lab, lambda: numpoly.lead_exponent(p, graded=graded, reverse=reverse), first, tg, {"p": p})
                             got = numpy.asarray(numpoly.lead_exponent(p, graded=graded, reverse=reverse))
                             if got.shape != want_e.shape or not numpy.array_equal(got, want_e):
                                 R.fail("lead_exponent", "wrong-value", f"{lab} graded={graded} reverse={reverse}: {got.tolist()} != {want_e.tolist()}"[:400], tags=tg)
@@ -136,6 +139,8 @@ def run_case(case, R):
                             R.fail("lead_exponent", "exception", f"{lab}: {type(err).__name__}: {err}", tags=tg)
                         R.tr()
                         try:
+                            first = numpoly.lead_coefficient(p, graded=graded, reverse=reverse)
+                            recall(R, "lead_coefficient", lab, lambda: numpoly.lead_coefficient(p, graded=graded, reverse=reverse), first, tg, {"p": p})
                             got = numpy.asarray(numpoly.lead_coefficient(p, graded=graded, reverse=reverse))
                             if got.shape != want_c.shape or not numpy.array_equal(got.astype(complex), want_c):
                                 R.fail("lead_coefficient", "wrong-value", f"{lab} graded={graded} reverse={reverse}: {got.tolist()} != {want_c.tolist()}"[:400], tags=tg)
@@ -145,6 +150,8 @@ def run_case(case, R):
                     if via == "args":
                         R.tr()
                         try:
+                            first = numpoly.sortable_proxy(p, graded=graded, reverse=reverse)
+                            recall(R, "sortable_proxy", lab, lambda: numpoly.sortable_proxy(p, graded=graded, reverse=reverse), first, tg, {"p": p})
                             proxy = numpy.asarray(numpoly.sortable_proxy(p, graded=graded, reverse=reverse))
                             prob = None
                             if proxy.shape != tuple(shape):
@@ -195,6 +202,9 @@ def run_case(case, R):
             R.tr()
             try:
                 got = numpoly.tonumpy(p)
+                if const:
+                    recall(R, "tonumpy", lab, lambda: numpoly.tonumpy(p), got, tags, {"p": p})
+                    got = numpoly.tonumpy(p)
                 if not const:
                     R.fail("tonumpy", "no-exception", f"{lab}: non-constant polynomial converted to {got!r}", tags=tags)
                 elif V.const(numpy.asarray(got)) != m:
@@ -236,6 +246,8 @@ def run_case(case, R):
             # decompose
             R.tr()
             try:
+                first = numpoly.decompose(p)
+                recall(R, "decompose", lab, lambda: numpoly.decompose(p), first, tags, {"p": p})
                 dec = numpoly.decompose(p)
                 da = alpha(dec)
                 probs = []
